@@ -920,7 +920,8 @@ func (fr *Frame) enterLoop(head *ssa.BasicBlock, phis []*ssa.Phi, outside func(*
 				nm[k] = v
 			}
 			hv := func(k string) {
-				fv := b.Const("calledBefore_"+k, SBool)
+				// only executions that pass this loop head can have called it in an earlier iteration
+				fv := b.And(fr.reach, b.Const("calledBefore_"+k, SBool))
 				if prev, ok := nm[k]; ok {
 					nm[k] = b.Or(prev, fv)
 				} else {
@@ -936,7 +937,11 @@ func (fr *Frame) enterLoop(head *ssa.BasicBlock, phis []*ssa.Phi, outside func(*
 						hv(k)
 					}
 				}
-				nm[calledAnyKey] = b.True()
+				if prev, ok := nm[calledAnyKey]; ok {
+					nm[calledAnyKey] = b.Or(prev, fr.reach)
+				} else {
+					nm[calledAnyKey] = fr.reach
+				}
 			}
 			f.lastCalled = nm
 		}
@@ -1296,8 +1301,8 @@ func calledTerm(b *TermBank, m map[string]*Term, name string) *Term {
 	if t, ok := m[name]; ok {
 		return t
 	}
-	if _, any := m[calledAnyKey]; any {
-		t := b.Const("calledBefore_"+name, SBool)
+	if passed, any := m[calledAnyKey]; any {
+		t := b.And(passed, b.Const("calledBefore_"+name, SBool))
 		m[name] = t
 		return t
 	}
